@@ -30,13 +30,20 @@ Fixpoint write_chunk (m : mem) (start : Z) (c : list (option Z)) : mem :=
   | None :: r => write_chunk (mset m start (clear_init (mget m start))) (wrap16 (start + 1)) r
   end.
 
-(* copy_obj_block: a chunk of 65536 or more words makes `copy_from_slice`/`split_at` panic *)
+(* copy_obj_block: an initialised chunk of 65536 or more words makes `copy_from_slice` panic
+   (slice lengths differ); a reserved chunk of that size does not: `chunk.len() as u16` words
+   are cleared.  (No public API builds such a chunk: both file formats store block lengths in
+   16 bits; exercised through the verif_from_blocks hook.) *)
 Fixpoint copy_chunks (m : mem) (start : Z) (cs : list (list (option Z))) : option mem :=
   match cs with
   | [] => Some m
   | c :: r =>
       let len := Z.of_nat (List.length c) in
-      if 65536 <=? len then None
+      if 65536 <=? len then
+        match c with
+        | Some _ :: _ => None
+        | _ => copy_chunks (write_chunk m start (firstn (Z.to_nat (wrap16 len)) c)) (wrap16 (start + len)) r
+        end
       else copy_chunks (write_chunk m start c) (wrap16 (start + len)) r
   end.
 Definition copy_obj_block (m : mem) (start : Z) (data : list (option Z)) : option mem :=
